@@ -16,7 +16,7 @@ EXPLANATION = (
     "of every function present equals its digest in the full configuration (quick: two reduced configurations per crate; thorough: every "
     "distinct closure), i.e. an operation available in a reduced build is the same code. Does not decide additivity of dependency features.")
 ASSUMPTIONS = ["rustc/cargo", "dependency crates' features are additive (cargo's contract)"]
-FLOORS = {"R19.1": 44, "R19.2": 4, "R19.3": 8}
+FLOORS = {"R19.1": 44, "R19.2": 4, "R19.3": 8, "R19.4": 8}
 CRATES = features.FEATURE_CRATES
 CFGSCAN = os.path.join(VERIF, "cfgscan", "target", "release", "cfgscan")
 
@@ -163,6 +163,28 @@ def run(ctx):
         if impl_diff:
             probs.append(f"trait impl(s) whose associated items differ from the full build: {impl_diff[:3]}")
         ctx.add("R19.3", f"C19/same-code/{name}", not probs, "; ".join(probs), facts={"functions": len(dg)})
+    # ---------------- R19.4 capability bounds in paseto-core: an operation is available exactly when the backend implements the
+    # capability trait of that operation (which is what the feature flags gate). An "undo" operation that demands a "do" capability
+    # (decrypt requiring SealingVersion) disappears from decrypt-only builds although every feature set still compiles.
+    core = Crate(os.path.join(ctx.facts_dir, "paseto_core.lib.json"))
+    UNDO = {"decrypt", "decrypt_with_aad", "verify", "verify_with_aad", "unseal", "unwrap", "params"}
+    DO = {"encrypt", "encrypt_with_aad", "sign", "sign_with_aad", "seal", "wrap_pie", "password_wrap", "password_wrap_with_params"}
+    nimpl = 0
+    for im in core.impls:
+        if im.get("of_trait"):
+            continue
+        names = {it["name"] for it in im.get("items", [])}
+        preds = im.get("predicates") or []
+        if names & UNDO and not names & DO:
+            nimpl += 1
+            bad = [pd for pd in preds if re.search(r"(?<!Un)SealingVersion<|PkeSealingVersion", pd)]
+            ctx.add("R19.4", f"C19/capability-bounds/{im['path']}", not bad,
+                    f"{sorted(names & UNDO)} require {bad}: in a build with only the undo capability the method cannot be called" if bad else "")
+        elif names & DO and not names & UNDO:
+            nimpl += 1
+            ctx.add("R19.4", f"C19/capability-bounds/{im['path']}", True, "")
+    if nimpl < 8:
+        ctx.add("R19.4", "C19/capability-bounds/anchor", False, f"only {nimpl} operation impl blocks found in paseto-core")
     ctx.sample({"closures_per_crate": 45, "builds_checked": len(res), "reduced_configs_compared": len(configs)})
 
 def hashlibname(s):
